@@ -26,6 +26,10 @@
                              A, 2 variable on tape B (a is created first); op as above:
                              (0 (num hist idx da db)) | (2)   hist = () | (1) ; da db = () or
                              (the derivative of the result with respect to that variable)
+     (19 10 ty p r (x ..) (a b c d))  the generic routines of linear_algebra at the user type
+                             (Rat is Clone but not Copy): (f1_score(p, r)  mean(xs)  variance(xs)
+                             determinant([[a b] [c d]])); for ty 0 the harness also instantiates
+                             every other routine of linear_algebra at Rat (a build-time check)
    The model evaluates every form function of Model/Numeric.v and prints their common result
    ((99 ..) should they differ, which Proofs/C19P.v excludes).
    ty: 0 Rat, 1 Fp, 2 Wrapping<i64>. *)
@@ -168,8 +172,30 @@ Definition c19_record_op (op ka kb : Z) (a b : R) : sx :=
              srecord_result ka kb ra rb (record_vr ops op t2 ra rb);
              srecord_result ka kb ra rb (record_rv ops op t2 ra rb)].
 
+(* ---- the generic routines of src/linear_algebra.rs used directly at the user type ---- *)
+(* mean: count = count + one; sum = sum + next; sum / count *)
+Definition u_mean (l : list R) : R :=
+  let cs := fold_left (fun cs x => (nadd ops (fst cs) (none_ ops), nadd ops (snd cs) x)) l
+                      (nzero ops, nzero ops) in
+  ndiv ops (snd cs) (fst cs).
+(* variance: m = mean(list); mean(list.map(|x| (x - m) * (x - m))) *)
+Definition u_variance (l : list R) : R :=
+  let m := u_mean l in u_mean (map (fun x => nmul ops (nsub ops x m) (nsub ops x m)) l).
+(* f1_score: (one + one) * ((precision * recall) / (precision + recall)) *)
+Definition u_f1 (p r : R) : R :=
+  nmul ops (nadd ops (none_ ops) (none_ ops)) (ndiv ops (nmul ops p r) (nadd ops p r)).
+(* determinant of a 2x2 matrix (any evaluation order agrees in a commutative ring) *)
+Definition u_det2 (a b c d : R) : R := nsub ops (nmul ops a d) (nmul ops b c).
+
 Definition c19_user (op : Z) (args : list sx) : sx :=
   match op, args with
+  | 10, [p; r; xs; SL [a; b; c; d]] =>
+      match ndec ops p, ndec ops r, dlist (ndec ops) xs, ndec ops a, ndec ops b, ndec ops c, ndec ops d with
+      | Some p, Some r, Some (x :: xs), Some a, Some b, Some c, Some d =>
+          SL [nenc ops (u_f1 p r); nenc ops (u_mean (x :: xs)); nenc ops (u_variance (x :: xs));
+              nenc ops (u_det2 a b c d)]
+      | _, _, _, _, _, _, _ => bad_case
+      end
   | 8, [SZ o; a; b] =>
       match dtrace a, dtrace b with
       | Some a, Some b => if (0 <=? o) && (o <=? 4) then c19_trace_op o a b else bad_case
@@ -210,6 +236,6 @@ Definition run_c19 (args : list sx) : sx :=
       if wrapper_ok w then c19_arith w tag op a b else bad_case
   | [SZ 4; SZ tag; SZ op; SZ a; SZ b] => if is_float tag then SL [SZ 1] else bad_case
   | SZ op :: SZ ty :: rest =>
-      if (5 <=? op) && (op <=? 9) then with_ty3 ty (fun R ops => c19_user ops op rest) else bad_case
+      if (5 <=? op) && (op <=? 10) then with_ty3 ty (fun R ops => c19_user ops op rest) else bad_case
   | _ => bad_case
   end.
